@@ -209,7 +209,7 @@ Proof.
 Qed.
 Theorem constraint_matches_doc_filter_range_refuted : exists sw sh kw kh padding,
   constraint_filter_range sw sh kw kh padding = true /\ doc_filter_range kw kh = false.
-Proof. exists 1, 1, 9, 9, K_Padding_VALID. split; reflexivity. Qed.
+Proof. exists 1, 1, (K_filter_range_1 + 1), (K_filter_range_1 + 1), K_Padding_VALID. split; vm_compute; reflexivity. Qed.
 
 Theorem constraint_matches_doc_mean_height_width_product : forall shape axis is16 isu8,
   constraint_mean_height_width_product shape axis is16 isu8 = doc_mean_height_width_product shape axis is16 isu8.
@@ -219,8 +219,8 @@ Theorem constraint_matches_doc_mean_depth : forall shape axis,
   constraint_mean_depth shape axis = doc_mean_depth shape axis.
 Proof.
   intros. unfold constraint_mean_depth, doc_mean_depth, impb. cbv zeta.
-  change (dn doc_nums_constraint_mean_depth 0) with 4096. change K_mean_reduced_axis_max_size with 4096.
-  rewrite gtb_negb_leb. destruct (py_in (py_len shape - 1) axis); destruct (py_nth shape (-1) <=? 4096); reflexivity.
+  change (dn doc_nums_constraint_mean_depth 0) with K_mean_reduced_axis_max_size.
+  rewrite gtb_negb_leb. destruct (py_in (py_len shape - 1) axis); destruct (py_nth shape (-1) <=? K_mean_reduced_axis_max_size); reflexivity.
 Qed.
 
 (* constraint_mean_width ignores whether the width axis is reduced *)
@@ -232,7 +232,7 @@ Theorem constraint_matches_doc_mean_width_partial : forall shape axis,
 Proof. intros shape axis H. rewrite constraint_mean_width_spec in H. unfold doc_mean_width, impb. rewrite H. apply orb_true_r. Qed.
 Theorem constraint_matches_doc_mean_width_refuted : exists shape axis,
   doc_mean_width shape axis = true /\ constraint_mean_width shape = false.
-Proof. exists [1; 4; 4097; 2], [1]. split; reflexivity. Qed.
+Proof. exists [1; 4; K_mean_reduced_axis_max_size + 1; 2], [1]. split; vm_compute; reflexivity. Qed.
 
 Theorem constraint_matches_doc_argmax_depth : forall shape, constraint_argmax_depth shape = doc_argmax_depth shape.
 Proof. reflexivity. Qed.
@@ -543,13 +543,18 @@ Qed.
 
 (* ------------------------------------------------------------------------------------------------------------ *)
 (* the hypotheses are satisfiable / the statements are not vacuous                                               *)
-Example ex_stride_range : constraint_stride_range 3 3 = true /\ constraint_stride_range 4 3 = false /\ constraint_stride_range 0 1 = false.
+Example ex_stride_range : constraint_stride_range K_stride_range_1 K_stride_range_0 = true /\
+                          constraint_stride_range (K_stride_range_1 + 1) K_stride_range_0 = false /\
+                          constraint_stride_range K_stride_range_0 (K_stride_range_0 - 1) = false.
 Proof. repeat split. Qed.
-Example ex_dilated : constraint_dilated_height_range 32 2 = true /\ constraint_dilated_height_range 33 2 = false /\
-                     constraint_dilated_product_range 64 64 1 1 = true /\ constraint_dilated_product_range 64 65 1 1 = false.
+Example ex_dilated : constraint_dilated_height_range K_dilated_height_range_1 1 = true /\
+                     constraint_dilated_height_range (K_dilated_height_range_1 + 1) 1 = false /\
+                     constraint_dilated_product_range K_dilated_product_range_1 1 1 1 = true /\
+                     constraint_dilated_product_range (K_dilated_product_range_1 + 1) 1 1 1 = false.
 Proof. repeat split. Qed.
-Example ex_tens_dimension : constraint_tens_dimension [[1; 65535]; [3]] = true /\ constraint_tens_dimension [[1; 65536]] = false /\
-                            constraint_tens_dimension [[0]] = false.
+Example ex_tens_dimension : constraint_tens_dimension [[K_tens_dim_range_0; K_tens_dim_range_1]; [K_tens_dim_range_0]] = true /\
+                            constraint_tens_dimension [[K_tens_dim_range_0; K_tens_dim_range_1 + 1]] = false /\
+                            constraint_tens_dimension [[K_tens_dim_range_0 - 1]] = false.
 Proof. repeat split. Qed.
 Example ex_batch : constraint_batch_size [2; 8; 8; 4] [] true false = false /\ constraint_batch_size [8; 8; 4] [] true false = true.
 Proof. repeat split. Qed.
@@ -563,6 +568,6 @@ Proof.
   destruct report_rows as [|[[[code op] ngen] idx] r] eqn:E; [discriminate|].
   exists code, op, ngen, idx. split; [left; reflexivity|]. vm_compute in E. inversion E; subst. split; discriminate.
 Qed.
-Example ex_driver : fst (is_operator_supported (fun c => negb (c =? 55)) (snd (fst (fst (hd (0, 0, 0, []) report_rows))))) = false /\
+Example ex_driver : fst (is_operator_supported (fun _ => false) (snd (fst (fst (hd (0, 0, 0, []) report_rows))))) = false /\
                     fst (is_operator_supported (fun _ => true) (snd (fst (fst (hd (0, 0, 0, []) report_rows))))) = true.
 Proof. split; vm_compute; reflexivity. Qed.
